@@ -5,7 +5,6 @@ const SUBLANG_SHIFT: i32 = 10;
 
 const LANG_NEUTRAL: u16 = 0x0;
 const SUBLANG_NEUTRAL: u16 = 0x0;
-const SUBLANG_CUSTOM_UNSPECIFIED: u16 = 0x4;
 
 // ========================================================================= //
 
@@ -57,10 +56,11 @@ impl Language {
                             return Language::new(lang_code, sublang_code);
                         }
                     }
-                    return Language::new(
-                        lang_code,
-                        SUBLANG_CUSTOM_UNSPECIFIED,
-                    );
+                    // Unknown region: fall back to the bare language.  (Any
+                    // fixed sublanguage number would be the code of a real
+                    // regional variant for some languages; e.g. sublanguage
+                    // 4 is en-CA, zh-SG, de-LU, fr-CH, es-GT and ar-LY.)
+                    return Language::new(lang_code, SUBLANG_NEUTRAL);
                 } else {
                     return Language::new(lang_code, SUBLANG_NEUTRAL);
                 }
